@@ -1,0 +1,64 @@
+//! Verification hooks (compiled only with the `verif_hooks` cargo feature).
+//!
+//! Nothing in here changes behaviour unless a test harness explicitly drives
+//! it: the clock offset defaults to zero and pause points without a registered
+//! gate return immediately.
+
+use std::collections::HashMap;
+use std::sync::atomic::{AtomicI64, Ordering};
+use std::sync::{Mutex, OnceLock};
+use tokio::sync::{mpsc, oneshot};
+
+static CLOCK_OFFSET_NS: AtomicI64 = AtomicI64::new(0);
+
+/// Offset added to wall-clock reads at the instrumented sites.
+pub fn clock_offset() -> chrono::Duration {
+    chrono::Duration::nanoseconds(CLOCK_OFFSET_NS.load(Ordering::SeqCst))
+}
+
+/// Offset in nanoseconds.
+pub fn clock_offset_nanos() -> i64 {
+    CLOCK_OFFSET_NS.load(Ordering::SeqCst)
+}
+
+/// Set the offset (nanoseconds) added to wall-clock reads.
+pub fn set_clock_offset_nanos(ns: i64) {
+    CLOCK_OFFSET_NS.store(ns, Ordering::SeqCst);
+}
+
+/// Advance the offset by `ns` nanoseconds.
+pub fn advance_clock_nanos(ns: i64) {
+    CLOCK_OFFSET_NS.fetch_add(ns, Ordering::SeqCst);
+}
+
+type Gate = mpsc::UnboundedSender<(String, oneshot::Sender<()>)>;
+
+fn gates() -> &'static Mutex<HashMap<String, Gate>> {
+    static GATES: OnceLock<Mutex<HashMap<String, Gate>>> = OnceLock::new();
+    GATES.get_or_init(|| Mutex::new(HashMap::new()))
+}
+
+/// Register a gate for the named pause point: every task reaching
+/// `pause_point(name)` sends `(name, resume)` on the returned channel and waits
+/// until `resume` is signalled (or dropped).
+pub fn register_gate(name: &str) -> mpsc::UnboundedReceiver<(String, oneshot::Sender<()>)> {
+    let (tx, rx) = mpsc::unbounded_channel();
+    gates().lock().unwrap().insert(name.to_string(), tx);
+    rx
+}
+
+/// Remove the gate of the named pause point.
+pub fn clear_gate(name: &str) {
+    gates().lock().unwrap().remove(name);
+}
+
+/// A named pause point. Without a registered gate this returns immediately.
+pub async fn pause_point(name: &str) {
+    let gate = gates().lock().unwrap().get(name).cloned();
+    if let Some(tx) = gate {
+        let (resume_tx, resume_rx) = oneshot::channel();
+        if tx.send((name.to_string(), resume_tx)).is_ok() {
+            let _ = resume_rx.await;
+        }
+    }
+}
